@@ -566,8 +566,165 @@ pub mod backend {
         }
     }
 
+    // -----------------------------------------------------------------------------------------------------------
+    // Part `lmdb-map-full` (after the seeded change `C02m`): the one storage fault a real backend produces on demand.
+    // The LMDB backend opens its environment with a 10 MiB map; a bulk request whose documents do not fit fails with
+    // MDB_MAP_FULL somewhere inside the call. Whatever the backend then reports as written — nothing, for a backend
+    // that writes a bulk in one transaction — is what the set has to show.
+
+    #[derive(Debug, Clone)]
+    pub struct BigBulk {
+        pub ks: usize,
+        pub source: usize,
+        pub first_key: u64,
+        pub n: usize,
+        pub len: usize,
+        pub shared_stamp: bool,
+        pub delete: bool,
+        pub wide: bool,
+    }
+
+    #[derive(Debug, Clone)]
+    pub struct FullCase {
+        pub pre: Vec<Req>,
+        pub bulks: Vec<BigBulk>,
+        pub between: Vec<Req>,
+        pub restart_after: Option<usize>,
+    }
+
+    pub struct MapFull;
+
+    fn expand(i: usize, b: &BigBulk) -> Req {
+        let ws: Vec<super::W> = (0..b.n)
+            .map(|j| {
+                let k = b.first_key + j as u64;
+                super::W {
+                    key: if b.wide { super::wide_id(k) } else { k },
+                    stamp: crate::model::Stamp { secs: 200_000 + 10 * i as u64, frac: 0, counter: if b.shared_stamp { 0 } else { j as u16 }, node: 1 },
+                    len: b.len,
+                }
+            })
+            .collect();
+        if b.delete {
+            Req::MultiDel { ks: b.ks, source: b.source, ws }
+        } else {
+            Req::MultiSet { ks: b.ks, source: b.source, ws }
+        }
+    }
+
+    impl Prop for MapFull {
+        type Case = FullCase;
+
+        fn id(&self) -> &'static str {
+            "C02"
+        }
+
+        fn part(&self) -> &'static str {
+            "lmdb-map-full"
+        }
+
+        fn width(&self) -> usize {
+            4 * 26 + 60
+        }
+
+        fn breadcrumbs(&self) -> bool {
+            true
+        }
+
+        fn process_isolated(&self) -> bool {
+            true
+        }
+
+        fn shrink_budget(&self) -> usize {
+            60
+        }
+
+        fn gen(&self, src: &mut Src) -> FullCase {
+            let mut g = ReqGen::new(src);
+            g.n_ks = 1 + src.below(2);
+            let pre = (0..src.below(3)).map(|_| g.req(src)).collect();
+            let n_bulks = 2 + src.below(3);
+            let mut bulks = vec![];
+            for _ in 0..n_bulks {
+                let delete = !bulks.is_empty() && src.chance(1, 4);
+                bulks.push(BigBulk {
+                    ks: src.below(g.n_ks),
+                    source: src.below(2),
+                    first_key: *src.pick(&[1u64, 1, 500, 3_001, 6_000]),
+                    n: *src.pick(&[1_025usize, 1_100, 1_500, 2_048, 2_049, 3_000, 700]),
+                    len: if delete { 0 } else { *src.pick(&[3_000usize, 5_000, 9_000, 2_000, 40]) },
+                    shared_stamp: src.chance(1, 2),
+                    delete,
+                    wide: src.chance(1, 3),
+                });
+            }
+            let between = (0..src.below(3)).map(|_| g.req(src)).collect();
+            let restart_after = if src.chance(1, 2) { Some(src.below(n_bulks)) } else { None };
+            FullCase { pre, bulks, between, restart_after }
+        }
+
+        fn run(&self, case: &FullCase) -> Outcome {
+            let dir = crate::c17::scratch_dir();
+            let mut lives: Vec<Vec<Req>> = vec![case.pre.clone()];
+            for (i, b) in case.bulks.iter().enumerate() {
+                lives.last_mut().unwrap().push(expand(i, b));
+                if i == 0 {
+                    lives.last_mut().unwrap().extend(case.between.iter().cloned());
+                }
+                if case.restart_after == Some(i) {
+                    lives.push(vec![]);
+                }
+            }
+            let r = crate::c07::backend::run_lives_with::<LmdbStorage, _, _>(
+                &lives,
+                &dir,
+                |d| async move { LmdbStorage::open(&d).await.map_err(|e| e.to_string()) },
+                |s: &LmdbStorage| Some(s.handle().env().clone()),
+                true,
+            );
+            let _ = std::fs::remove_dir_all(&dir);
+            let mut pass = r?;
+            let bytes: usize = case.bulks.iter().filter(|b| !b.delete).map(|b| b.n * b.len).sum();
+            pass.labels.clear();
+            if bytes > 10 << 20 {
+                pass.labels.push("documents_exceed_the_10MiB_map");
+            }
+            if case.bulks.iter().any(|b| !b.delete && b.n > 1024 && b.n * b.len > 10 << 20) {
+                pass.labels.push("one_bulk_alone_exceeds_the_map");
+            }
+            if case.bulks.iter().any(|b| b.delete) {
+                pass.labels.push("bulk_delete");
+            }
+            if case.restart_after.is_some() {
+                pass.labels.push("restart");
+            }
+            pass.nontrivial = bytes > 10 << 20;
+            Ok(pass)
+        }
+
+        fn describe(&self, case: &FullCase) -> Value {
+            json!({
+                "small_requests_first": case.pre.iter().map(req_json).collect::<Vec<_>>(),
+                "bulk_requests": case.bulks.iter().map(|b| json!({
+                    "ks": b.ks, "source": b.source, "kind": if b.delete { "multi_del" } else { "multi_set" }, "first_id": b.first_key, "ids": b.n,
+                    "bytes_per_document": b.len, "one_shared_stamp": b.shared_stamp, "ids_spread_over_u64": b.wide,
+                })).collect::<Vec<_>>(),
+                "small_requests_after_the_first_bulk": case.between.iter().map(req_json).collect::<Vec<_>>(),
+                "restart_after_bulk": case.restart_after,
+            })
+        }
+
+        fn rule(&self) -> &'static str {
+            "a real KeyspaceGroup over the real LmdbStorage (10 MiB map) in /dev/shm; 0-2 small requests, then 2-4 bulk requests of 700-3000              documents of 40-9000 bytes each (multi_set; one in four after the first is a multi_del of as many ids) on 1-2 keyspaces, both sources,              ids consecutive or spread over the u64 range, one shared stamp or one per document, small requests in between, optionally a restart              after one of the bulks; the documents of a case often exceed the map, so a bulk fails inside the backend (MDB_MAP_FULL); oracle as in              part lmdb-backend: after EVERY request, failed ones included, the set equals iter_metadata and every live document is readable at its              stamp, and the same after close + reopen + reload; non-trivial = the documents of the case exceed 10 MiB"
+        }
+    }
+
     pub fn parts() -> Vec<Box<dyn DynPart>> {
-        vec![Box::new(Gen::new(OnBackend { lmdb: false }, 6_000, 200_000)), Box::new(Gen::new(OnBackend { lmdb: true }, 20_000, 600_000))]
+        vec![
+            Box::new(Gen::new(OnBackend { lmdb: false }, 6_000, 200_000)),
+            Box::new(Gen::new(OnBackend { lmdb: true }, 20_000, 600_000)),
+            Box::new(Gen::new(MapFull, 400, 12_000)),
+        ]
     }
 }
 
